@@ -33,6 +33,7 @@ from . import common as C
 PROP_MODULE = "DoraModel.Props.C03"
 PROP_FILE = "DoraModel/Props/C03.lean"
 CORPUS = os.path.join(C.VERIF, "corpus", "C03")
+QUICK_RT_PROGRAMS = 10
 BINCACHE = os.path.join(C.BUILD, "c03-bin")
 HOOK_MARK = "DORA_VERIF_HEAPDUMP"
 JOBS = int(os.environ.get("VERIF_C03_JOBS", "16"))
@@ -121,6 +122,12 @@ def workloads(ctx):
             wl.append(dict(path=p, prog="rt/%s/%s" % (sub, f[:-5]), name="rt/%s/%s" % (sub, f[:-5]), corpus=False,
                            bounded=(h["error"] != "oom"), hdr_flags=flags_to_dict(h["runtime_args"]),
                            heap=None, threads=1, args=h["args"], scale="one"))
+    if ctx.tier == "quick":
+        # quick tier: the whole corpus, and a seeded sample of the repository's own gc/swiper programs (every build of a
+        # (program, code generator, collector) triple costs about a second of a 16-core machine; thorough runs them all)
+        rt = [w for w in wl if not w["corpus"]]
+        keep = set(w["name"] for w in random.Random("%s|rt-sample" % ctx.seed).sample(rt, min(QUICK_RT_PROGRAMS, len(rt))))
+        wl = [w for w in wl if w["corpus"] or w["name"] in keep]
     return wl
 
 
@@ -568,7 +575,7 @@ def run_matrix(ctx, tc, stats):
         if quick:
             # quick tier: the first k cells of this workload's own (seeded) pairwise cover; the covers of different
             # workloads start at different cells, the union over the workloads is measured below (pair_coverage)
-            cells = pairwise(cands, rng)[: (5 if w["corpus"] else 4)]
+            cells = pairwise(cands, rng)[: (4 if w["corpus"] else 3)]
         elif not w["corpus"]:
             cells = pairwise(cands, rng)
             for extra in range(2):
@@ -835,8 +842,6 @@ def dump_leg(ctx, tc, drv, wls, stats):
         cands = []
         for b in BACKENDS:
             for g in RECLAIMING:
-                if b == "cannon" and g != "swiper" and not os.environ.get("VERIF_C03_DUMP_ALL"):
-                    continue       # baseline + non-generational collectors: the write-barrier defect aborts first
                 if w["scale"] in ("small", "one") and al.get("notlab") is not None and al["notlab"] <= 450:
                     cands.append(dict(backend=b, gc=g, stress="full", tlab="off", workers="2", heap="h0", young="1M" if g == "swiper" else "default"))
                     if g == "swiper":
@@ -845,7 +850,7 @@ def dump_leg(ctx, tc, drv, wls, stats):
                     cands.append(dict(backend=b, gc=g, stress="none", tlab="on", workers="2", heap="h0", young="1M" if g == "swiper" else "default"))
         if quick:
             rng.shuffle(cands)
-            cands = cands[:2]
+            cands = cands[:2] if w["scale"] == "big" else cands[:1]
         for c in cands:
             jobs.append((w, c))
 
@@ -965,8 +970,17 @@ def run(ctx):
                     "property theorems of C03 no longer check: %s" % "; ".join(po["failed"])[:400],
                     no_input=not (stats["cells_failed"] or stats["hdr_disagreements"] or stats["collections_rejected"]))
     programs = len({w["prog"] for w in wls})
+    # allocation sequences of the baseline generator (initial remembered bit vs the runtime's large-object rule, array
+    # sizes): theorems over the regenerated masm model; a break runs the machine leg's search under this property
+    from . import c01_masm
+    alloc = c01_masm.alloc_obligations(ctx)
+    po["obligations"] += alloc["obligations"]
+    po["discharged"] += alloc["discharged"]
+    po["theorems"] = dict(po["theorems"], **alloc["theorems"])
     cov = dict(
-        obligations=po["obligations"], discharged=po["discharged"], checker_cmd=po["checker_cmd"],
+        obligations=po["obligations"], discharged=po["discharged"], checker_cmd=po["checker_cmd"] + " (and DoraModel.Props.C13Masm)",
+        masm_alloc=dict(module=alloc["module"], obligations=alloc["obligations"], discharged=alloc["discharged"],
+                        runtime_rules=alloc["runtime_rules"], search=alloc.get("search")),
         trusted_base=po["trusted_base"] + [
             "bv_decide (header-word bit-vector theorems): its native axiom = compiled LRAT checker + CaDiCaL certificate",
             "hand transcription DoraModel/Gc/Header.lean of HeaderWord, tied by h_c03 vs drv_c03",
